@@ -141,6 +141,23 @@ class Gen:
             if r.random() < 0.8:
                 cur = cur + 32768 * NS + r.randrange(0, 100) * NS
                 ops.append("run %d" % cur)
+        if r.random() < (0.12 if focus == "C19" else 0.04):
+            # long uptime, then fixed timers whose deadlines lie far in the PAST (up to and beyond 32768 s / 65536 s back),
+            # mixed with present and near-future ones: all are clamped to now+1 tick and must run in creation order
+            self.count("scen:past-deadlines")
+            if cur < 70000 * NS:
+                cur = r.choice([70000 * NS, 200000 * NS, 86400 * NS * 30]) + r.randrange(0, NS)
+                ops.append("run %d" % cur)
+            for _ in range(r.randrange(2, 6)):
+                cb += 1
+                back = r.choice([0, 1, STEP, NS, 100 * NS, 32767 * NS, 32768 * NS, 32769 * NS, 40000 * NS, 65535 * NS, 65536 * NS, 65537 * NS,
+                                 r.randrange(0, 70000) * NS + r.randrange(0, NS)])
+                t = max(0, cur - back) if r.random() < 0.8 else cur + r.choice([1, STEP, 2 * STEP, NS])
+                ops.append("add %d %d" % (t, cb))
+                keys["F"].append(len(ops) - 1)
+                hint.append(t)
+            cur = cur + r.choice([1, STEP, 2 * STEP, NS, 5 * NS])
+            ops.append("run %d" % cur)
         if r.random() < 0.07:
             # far var-slot timers re-queued by advance() with the 0x7FFF s clamp active, then deleted / updated /
             # left alone, slots reused, then time carried past every stand-in entry
